@@ -56,12 +56,15 @@ def project(trace):
 def gen_jobs(rng, n):
     jobs = []
     for _ in range(n):
-        jobs.append({"T": rng.choice([300, 1000, 1000, 2000, 3000]), "S": rng.choice([0, 0, 500, 1500, 2990]),
+        # (a per-call timeout of 0 is a timeout like any other: the deadline is the creation time)
+        jobs.append({"T": rng.choice([300, 1000, 1000, 2000, 3000, 0]), "S": rng.choice([0, 0, 500, 1500, 2990]),
                      "D": rng.choice([0, 400, 1000, 1000, 2500, 2999, 3001]), "C": rng.random() < 0.5,
                      "percall": rng.random() < 0.7, "exc": rng.random() < 0.2,
                      "ucancel": rng.choice([None, None, None, 700, 1000, 2000]),
                      "SD": rng.choice([0, 0, 0, 1, 200, 700]), "CD": rng.choice([0, 0, 0, 0, 400, 900]),
                      "resub": rng.random() < 0.2})
+        if jobs[-1]["T"] == 0:
+            jobs[-1]["percall"] = True
     return jobs
 
 
